@@ -235,6 +235,28 @@ def run(fx, rep):
             rep.check(c in OPERATORS, 'R7', 'evaluated-in-place/%s' % c, F.loc_of(t['span']), 'operator %s' % c,
                       'Value::resolve evaluates calls of %r in place: a host function registered under that name never runs for that call shape, and x.%s() and %s(x) can disagree' % (c, c, c))
     rep.floor('R7', 19)
+    # ---------------- R9 variadic resolution keeps every argument or fails
+    rep.rule('R9', 'the all-arguments resolvers push the value of every argument in order or propagate its error: a function is never invoked with a shorter, shifted argument list')
+    DROP = re.compile(r'::(flat_map|filter_map|flatten|filter|ok|unwrap_or|unwrap_or_default|unwrap_or_else|take_while|map_while|skip_while|skip|take|step_by|rev|last|nth)$')
+    for path in ('<cel_interpreter::resolvers::AllArguments as cel_interpreter::resolvers::Resolver>::resolve', 'cel_interpreter::objects::Value::resolve_all'):
+        ab = fx.bodies.get(path)
+        if ab is None:
+            raise F.Lost('%s not found' % path)
+        short9 = 'AllArguments::resolve' if 'AllArguments' in path else 'Value::resolve_all'
+        bodies9 = [ab] + [fx.bodies[c] for c in fx.children.get(ab.path, [])]
+        drops = sorted({F.norm_callee(t) for bb in bodies9 for bi, t in bb.calls() if DROP.search(F.norm_callee(t) or '')})
+        okp = False
+        for bb in bodies9:
+            pv9 = F.Prov(bb, transparent={})
+            for bi, t in bb.calls():
+                if F.norm_callee(t) in RESOLVE_FNS:
+                    users = sorted({F.norm_callee(t2) or '?' for b2, t2 in bb.calls() if b2 != bi and any(x[0] == 'call' and x[3] == bi for a_ in t2['args'] for x in pv9.of_operand(a_))})
+                    okp = users == ['std::ops::Try::branch'] or (users == [] and bb is not ab)     # `?` in a loop body, or the closure of map(..).collect::<Result<_,_>>()
+        coll = [t for bb in bodies9 for bi, t in bb.calls() if F.norm_callee(t) == 'std::iter::Iterator::collect']
+        okc = all('Result<' in str((t['callee'].get('args') or [''])[-1]) for t in coll)
+        rep.check(not drops and okp and okc, 'R9', 'all-arguments/%s' % short9, ab.loc(), 'each argument value is pushed, each error propagated',
+                  '%s %s: a failing argument is dropped instead of aborting the call, so the function runs with different data' %
+                  (short9, ('uses ' + ', '.join(drops)) if drops else 'does not route the result of Value::resolve through `?` / a Result collection'))
     # ---------------- R8 who may read the unevaluated call
     rep.rule('R8', 'only the extractors and resolvers read FunctionContext.{args, arg_idx, this, ptx}: a built-in that inspects the raw argument expressions behaves differently for x.f(a) and f(x, a)')
     ALLOWED8 = re.compile(r'^(cel_interpreter::magic::(arg_expr_from_context|arg_value_from_context)|<cel_interpreter::magic::This<T> as cel_interpreter::magic::FromContext<.*>>::from_context|'
